@@ -18,6 +18,7 @@ import (
 	"fmt"
 	"os"
 	"reflect"
+	"slices"
 	"sort"
 	"strings"
 	"testing"
@@ -37,8 +38,8 @@ type c16Case struct {
 	// OverrideTDs: unnamed composite types (slices, arrays, maps, anonymous structs occurring in
 	// T) overridden through TypeSchemas as well
 	OverrideTDs []*tgen.TD `json:"override_types,omitempty"`
-	Ignore    bool     `json:"ignore_invalid_types"`
-	Feature   string   `json:"feature,omitempty"`
+	Ignore      bool       `json:"ignore_invalid_types"`
+	Feature     string     `json:"feature,omitempty"`
 }
 
 func poolType(name string) reflect.Type {
@@ -64,6 +65,12 @@ func overrideSchema(name string, t reflect.Type) *jsonschema.Schema {
 		return &jsonschema.Schema{Type: "object", Properties: map[string]*jsonschema.Schema{
 			"ovp-" + name: {Type: "string", Title: "marker-" + name},
 		}}
+	}
+	if len(name)%2 == 0 {
+		// a multi-type override whose Types slice has spare capacity, as a caller's append leaves it
+		ts := make([]string, 0, 8)
+		ts = append(ts, "string", "integer")
+		return &jsonschema.Schema{Types: ts, Title: "marker-" + name}
 	}
 	return &jsonschema.Schema{Type: "string", Title: "marker-" + name}
 }
@@ -168,8 +175,8 @@ func agree(typ reflect.Type, raw json.RawMessage, s *jsonschema.Schema, ov map[r
 				nonNull = append(nonNull, t)
 			}
 		}
-		if len(nonNull) != 1 || nonNull[0] != want.Type {
-			return failf("%s: overridden type %s: schema types %v, want %q (+null under a pointer)", path, typ, typesOf(s), want.Type)
+		if !slices.Equal(nonNull, typesOf(want)) {
+			return failf("%s: overridden type %s: schema types %v, want %v (+null under a pointer)", path, typ, typesOf(s), typesOf(want))
 		}
 		if nullable && os.Getenv("JSONSCHEMAGODEBUG") != "typeschemasnull=1" && !hasNull {
 			return failf("%s: overridden type %s under a pointer: null type not added (%v)", path, typ, typesOf(s))
